@@ -1264,4 +1264,115 @@ example : ∃ w' out, tx (run (World.init (stOf cfgMsg) [("alice", 100), ("bob",
     simp only [bonded, donated, Op.sender] at this
     omega
 
+/-- `only_configured_token`, native configuration: a foreign denom, two coins, a zero coin and a cw20 `Send`
+are all refused; exactly one coin of `ustake` is accepted — and the theorem applies to that transaction. -/
+example :
+    let w := World.init (stOf cfgMsg) [("alice", 100)] []
+    (tx w blk0 (.bond "alice" [("uother", 5)])).isOk = false ∧
+    (tx w blk0 (.bond "alice" [("ustake", 5), ("uother", 5)])).isOk = false ∧
+    (tx w blk0 (.bond "alice" [("ustake", 0)])).isOk = false ∧
+    (tx w blk0 (.bond "alice" [])).isOk = false ∧
+    (tx w blk0 (.send "alice" "tok" 5 true)).isOk = false ∧
+    (tx w blk0 (.bond "alice" [("ustake", 5)])).isOk = true := by decide
+example : ∃ w' out, tx (World.init (stOf cfgMsg) [("alice", 100)] []) blk0 (.bond "alice" [("ustake", 5)]) = .ok (w', out) ∧
+    ∃ d amt, (stOf cfgMsg).cfg.denom = .native d ∧ [("ustake", 5)] = [(d, amt)] ∧ amt ≠ 0 := by
+  rcases step_cases (World.init (stOf cfgMsg) [("alice", 100)] []) blk0 (.bond "alice" [("ustake", 5)])
+    with ⟨w', out, ht, _, _, _⟩ | ⟨_, _, hf⟩
+  · exact ⟨w', out, ht, (only_configured_token ht).1 _ _ rfl⟩
+  · exact absurd hf (by decide)
+
+/-! ## "Once", claim by claim: created claims = paid claims + waiting claims (as multisets) -/
+
+/-- The claims a transaction of the history pays to `a`: the matured ones, when it is a successful `Claim`
+of `a`. -/
+def paidStep (w : World) (blk : Block) (op : Op) (a : Addr) : List Claim :=
+  match (tx w blk op).isOk, op with
+  | true, .claim snd => if snd = a then matured blk (claimsOf w.st a) else []
+  | _, _ => []
+
+/-- The claim a transaction of the history creates for `a`: one, when it is a successful `Unbond` of `a`. -/
+def createdStep (w : World) (blk : Block) (op : Op) (a : Addr) : List Claim :=
+  match (tx w blk op).isOk, op with
+  | true, .unbond snd amt => if snd = a then [⟨amt, w.st.cfg.period.after blk⟩] else []
+  | _, _ => []
+
+/-- All claims paid to `a` along a history, in order of payment. -/
+def paidClaims (a : Addr) (w : World) : List (Block × Op) → List Claim
+  | [] => []
+  | o :: rest => paidStep w o.1 o.2 a ++ paidClaims a (step w o.1 o.2) rest
+
+/-- All claims created for `a` along a history, in order of creation. -/
+def createdClaims (a : Addr) (w : World) : List (Block × Op) → List Claim
+  | [] => []
+  | o :: rest => createdStep w o.1 o.2 a ++ createdClaims a (step w o.1 o.2) rest
+
+theorem claims_perm_step (w : World) (blk : Block) (op : Op) (a : Addr) :
+    (paidStep w blk op a ++ claimsOf (step w blk op).st a).Perm (claimsOf w.st a ++ createdStep w blk op a) := by
+  rw [claims_step]
+  unfold paidStep createdStep
+  cases hok : (tx w blk op).isOk with
+  | false => cases op <;> simp [ledgerStep]
+  | true =>
+    cases op with
+    | unbond snd amt =>
+      simp only [ledgerStep]
+      split <;> simp
+    | claim snd =>
+      simp only [ledgerStep]
+      split
+      · simp only [List.append_nil, matured, waiting]
+        exact List.filter_append_perm _ _
+      · simp
+    | bond _ _ => simp [ledgerStep]
+    | send _ _ _ _ => simp [ledgerStep]
+    | receive _ _ _ _ => simp [ledgerStep]
+    | updateAdmin _ _ => simp [ledgerStep]
+    | addHook _ _ => simp [ledgerStep]
+    | removeHook _ _ => simp [ledgerStep]
+    | donate _ _ => simp [ledgerStep]
+
+/-- **C10 `claim_pays_matured_once`, "once" claim by claim**: after any history from any world, the claims
+paid to `a` together with the claims still waiting for `a` are — as multisets — exactly `a`'s initial claims
+together with the claims created by `a`'s successful unbonds.  So every created claim is either still waiting
+or was paid, never both, never twice, and none is lost; nothing is paid that was not created. -/
+theorem claims_paid_once (a : Addr) (w : World) (ops : List (Block × Op)) :
+    (paidClaims a w ops ++ claimsOf (run w ops).st a).Perm (claimsOf w.st a ++ createdClaims a w ops) := by
+  induction ops generalizing w with
+  | nil => simp [paidClaims, createdClaims]
+  | cons o rest ih =>
+    have h1 := claims_perm_step w o.1 o.2 a
+    have h2 := ih (step w o.1 o.2)
+    simp only [paidClaims, createdClaims, run_cons]
+    calc (paidStep w o.1 o.2 a ++ paidClaims a (step w o.1 o.2) rest ++ claimsOf (run (step w o.1 o.2) rest).st a)
+        = paidStep w o.1 o.2 a ++ (paidClaims a (step w o.1 o.2) rest ++ claimsOf (run (step w o.1 o.2) rest).st a) := by
+          rw [List.append_assoc]
+      _ |>.Perm (paidStep w o.1 o.2 a ++ (claimsOf (step w o.1 o.2).st a ++ createdClaims a (step w o.1 o.2) rest)) :=
+          List.Perm.append_left _ h2
+      _ = (paidStep w o.1 o.2 a ++ claimsOf (step w o.1 o.2).st a) ++ createdClaims a (step w o.1 o.2) rest := by
+          rw [List.append_assoc]
+      _ |>.Perm ((claimsOf w.st a ++ createdStep w o.1 o.2 a) ++ createdClaims a (step w o.1 o.2) rest) :=
+          List.Perm.append_right _ h1
+      _ = claimsOf w.st a ++ (createdStep w o.1 o.2 a ++ createdClaims a (step w o.1 o.2) rest) := by
+          rw [List.append_assoc]
+
+/-- The tokens the contract's messages pay to `a` are exactly the amounts of the claims paid to `a`. -/
+theorem paidTo_eq_paidClaims (a : Addr) (w : World) (ops : List (Block × Op)) :
+    paidTo a (outs w ops) = amountSum (paidClaims a w ops) := by
+  induction ops generalizing w with
+  | nil => rfl
+  | cons o rest ih =>
+    simp only [outs_cons, paidTo_append, paidClaims, amountSum_append, ih]
+    congr 1
+    unfold paidStep
+    rcases step_cases w o.1 o.2 with ⟨w', out, ht, _, ho, hok⟩ | ⟨_, ho, hok⟩
+    · rw [ho, hok, paid_tx ht a]
+      cases o.2 <;> simp [claimDue, amountSum]
+      split <;> simp
+    · rw [ho, hok]; simp [paidTo, amountSum]
+
+/-- on `demoOps`: alice's one created claim `⟨20, height 105⟩` was paid once (at height 109), none waits -/
+example : paidClaims "alice" (World.init (stOf cfgMsg) [("alice", 100), ("bob", 5)] []) demoOps = [⟨20, .atHeight 105⟩] ∧
+    createdClaims "alice" (World.init (stOf cfgMsg) [("alice", 100), ("bob", 5)] []) demoOps = [⟨20, .atHeight 105⟩] := by
+  decide
+
 end CwPlus.Props.C10
